@@ -34,6 +34,7 @@ type Env struct {
 	inOld    bool
 	inBody   bool // inside the loop body (after the header advanced the hidden range index)
 	atCallSite bool // evaluating a callee's ensures for assumption: trace functions are not available
+	fn       *ssa.Function // the function whose contract is being evaluated (nil for external contracts)
 }
 
 type traceAtCallSite struct{}
@@ -59,6 +60,7 @@ func (x *exec) newEnv(st *State, fs *spec.FuncSpec) *Env {
 			env.macros[l.Name] = l.Expr
 		}
 		env.imports = x.e.w.importsOf(fs)
+		env.fn = x.e.w.funcByKey[fs.Key]
 	}
 	return env
 }
@@ -358,6 +360,21 @@ func (env *Env) ident(name string) Value {
 	}
 	if v, ok := env.st.ghostLocals[name]; ok {
 		return v
+	}
+	// a variable of an enclosing function that this closure does not capture itself (but closures it calls do): its cell
+	// is the same symbolic cell that is passed as binding when those closures are called
+	if env.fn != nil {
+		for p := env.fn.Parent(); p != nil; p = p.Parent() {
+			for _, b := range p.Blocks {
+				for _, ins := range b.Instrs {
+					if a, ok := ins.(*ssa.Alloc); ok && a.Heap && a.Comment == name {
+						cell := en.unknownCell(a)
+						cell.T = a.Type()
+						return env.x.loadVia(env.st, env.x.ptrOf(cell))
+					}
+				}
+			}
+		}
 	}
 	// package scope
 	if pk := en.w.Prog.All[env.pkgPath]; pk != nil && pk.Types != nil {
@@ -857,6 +874,16 @@ func (env *Env) resolveType(te *spec.TypeExpr) types.Type { return env.resolveTy
 func (env *Env) resolveTypeIn(te *spec.TypeExpr, pkgPath string) types.Type {
 	en := env.x.e
 	var base types.Type
+	if te.MapKey != nil {
+		base = types.NewMap(env.resolveTypeIn(te.MapKey, pkgPath), env.resolveTypeIn(te.MapVal, pkgPath))
+		for i := 0; i < te.Stars; i++ {
+			base = types.NewPointer(base)
+		}
+		if te.Slice {
+			base = types.NewSlice(base)
+		}
+		return base
+	}
 	if te.Pkg == "" {
 		if obj := types.Universe.Lookup(te.Name); obj != nil {
 			if tn, ok := obj.(*types.TypeName); ok {
